@@ -10,6 +10,8 @@ package main
 //      prototype with churn, producer/consumer programs — per-state traces vs. the run alone, deep snapshot of the shared
 //      prototype, channel histories judged by Spec.histOK.
 //   3. every report of the Go race detector is a violation (`X race …`).
+//   4. (c13_helper.go, child mode `helper`) the interpreter's own goroutines (SetMx monitors) and contexts cancelled from
+//      another goroutine, with the owner-side hand-overs (Close, SetContext/RemoveContext, running programs meanwhile).
 
 import (
 	"bufio"
@@ -18,6 +20,9 @@ import (
 	"crypto/md5"
 	"encoding/hex"
 	"fmt"
+	"go/ast"
+	"go/parser"
+	"go/token"
 	"os"
 	"os/exec"
 	"path/filepath"
@@ -691,6 +696,17 @@ func c13RunChild(run *Run) c13ChildResult {
 	if res.raceMode == "race" {
 		exes = append(exes, self)
 	}
+	// the helper family (c13_helper.go: SetMx monitors, contexts cancelled from another goroutine) in a child of its own
+	// under -race: a monitor that does not end with its state keeps stopping the world every 100 ms, and SetMx ends the
+	// process with os.Exit(3) — neither may disturb (or be blamed on) the other scenarios
+	hp := c13ChildResult{stats: map[string]int{}}
+	c13Exec(run, &hp, exe, "helper")
+	res.lines = append(res.lines, hp.lines...)
+	res.notes = append(res.notes, hp.notes...)
+	res.races = append(res.races, hp.races...)
+	for k, v := range hp.stats {
+		res.stats[k] = v
+	}
 	for i, e := range exes {
 		seg := c13ChildResult{stats: map[string]int{}}
 		c13Exec(run, &seg, e, "seg")
@@ -738,7 +754,7 @@ func c13Exec1(run *Run, res *c13ChildResult, exe, mode string) (hung bool) {
 	if run.Tier == "thorough" {
 		limit = 15 * time.Minute
 	}
-	if mode == "seg" {
+	if mode == "seg" || mode == "helper" {
 		limit = 60 * time.Second
 		if run.Tier == "thorough" {
 			limit = 6 * time.Minute
@@ -892,6 +908,66 @@ func c13Judge(run *Run, base int, lines []string) {
 	}
 }
 
+// goroutine start sites (enclosing function) that the helper family drives together with their owner-side hand-overs
+var c13ExercisedGoSites = map[string]bool{"state.go:LState.SetMx": true}
+
+// c13GoSites lists "<file>:<enclosing function>" of every go statement in the non-test Go files of the tree
+// (root package and sub-packages; go-inline templates `_*.go` are not compiled and skipped).
+func c13GoSites(repo string) (sites, unknown []string) {
+	seen := map[string]bool{}
+	filepath.Walk(repo, func(path string, info os.FileInfo, err error) error {
+		if err != nil {
+			return nil
+		}
+		name := info.Name()
+		if info.IsDir() {
+			if path != repo && (strings.HasPrefix(name, ".") || strings.HasPrefix(name, "_") || name == "cmd" || name == "testdata") {
+				return filepath.SkipDir
+			}
+			return nil
+		}
+		if !strings.HasSuffix(name, ".go") || strings.HasSuffix(name, "_test.go") || strings.HasPrefix(name, "_") {
+			return nil
+		}
+		f, err := parser.ParseFile(token.NewFileSet(), path, nil, 0)
+		if err != nil {
+			return nil
+		}
+		rel, _ := filepath.Rel(repo, path)
+		for _, d := range f.Decls {
+			fd, ok := d.(*ast.FuncDecl)
+			if !ok || fd.Body == nil {
+				continue
+			}
+			fn := fd.Name.Name
+			if fd.Recv != nil && len(fd.Recv.List) == 1 {
+				t := fd.Recv.List[0].Type
+				if st, ok := t.(*ast.StarExpr); ok {
+					t = st.X
+				}
+				if id, ok := t.(*ast.Ident); ok {
+					fn = id.Name + "." + fn
+				}
+			}
+			ast.Inspect(fd.Body, func(n ast.Node) bool {
+				if _, ok := n.(*ast.GoStmt); ok {
+					s := rel + ":" + fn
+					if !seen[s] {
+						seen[s] = true
+						sites = append(sites, s)
+						if !c13ExercisedGoSites[s] {
+							unknown = append(unknown, s)
+						}
+					}
+				}
+				return true
+			})
+		}
+		return nil
+	})
+	return sites, unknown
+}
+
 func runC13(run *Run) {
 	nCases, maxOps := 2500, 30
 	if run.Tier == "thorough" {
@@ -899,7 +975,8 @@ func runC13(run *Run) {
 	}
 	run.Rule = "(1) random single-goroutine histories over channel.make/send/receive/close/select (state-aware: ready and full/empty/closed channels, 1–5 select cases with handlers, defaults, malformed cases, every payload kind; with and without a context) replayed on the Lean LTS through the wrapper maps — exact, select's choice checked against the Model's ready set; payload-guard decision table is a bounded-exhaustive TEST over 15 value kinds × 4 send forms. " +
 		"(2) TEST under `go build -race`: N ∈ {2,8,32} LStates in goroutines from one shared compiled FunctionProto (4 programs) while 2 churn goroutines create/compile/instantiate/close states; each state's emit-trace digest compared with the same run alone; deep snapshot (values + slice len/cap) of the shared prototype before/after. " +
-		"(3) TEST under -race: producer/consumer Lua programs (1–5 senders, 1–4 receivers, capacities 0..64, receive()/select/handler forms, with/without context, closed through ch:close()) — per-goroutine logs judged by Spec.histOK (sent⊇received, no duplicate, all received when drained, per-sender order per receiver, closure reported once and last). Every race-detector report is a violation. distinct = distinct op-kind skeletons of stream (1)."
+		"(3) TEST under -race: producer/consumer Lua programs (1–5 senders, 1–4 receivers, capacities 0..64, receive()/select/handler forms, with/without context, closed through ch:close()) — per-goroutine logs judged by Spec.histOK (sent⊇received, no duplicate, all received when drained, per-sender order per receiver, closure reported once and last). Every race-detector report is a violation. " +
+		"(4) TEST under -race, bounded-exhaustive sweep (c13_helper.go): the goroutines the interpreter starts itself and the state memory it hands to other goroutines — states with SetMx memory-limit monitors (1, 2, +1 from the running program; refused in sub threads) and/or a context that is cancelled from another goroutine while the state spins in the VM loop or is blocked in channel receive/select/send, × programs (short, with host pauses so that the monitor polls mid-run, coroutines) × delay between the end of the program and Close (0/40/130 ms around the monitor's 100 ms round) × closed by the owner or by a goroutine the state was handed to; RemoveContext / SetContext and a further run; 120 such states alive at once; the family then waits until every monitor has polled after the Close of its state and ended; each state's trace compared with the same configuration alone. distinct = distinct op-kind skeletons of stream (1)."
 	run.Assume = []string{
 		"Go channel/select semantics (buffered FIFO, rendezvous at capacity 0, close, select chooses among ready cases, default only if none) are a parameter of the Model (GLua.Chan.step), not verified",
 		"data-race freedom under the Go memory model is NOT a theorem: it is supported by the -race runs (which see only the interleavings that occurred) and by the regenerated syntactic facts protoFieldWrites = [] / packageVarWrites = [] / every package-level var classified",
@@ -921,6 +998,14 @@ func runC13(run *Run) {
 
 	// concurrent part
 	child := c13RunChild(run)
+	// which goroutines does the tree under test start itself?  (syntactic: every `go` statement of the non-test sources.)
+	// The helper family exercises the sites listed in c13ExercisedGoSites; a start site it does not know is named in a
+	// note and in the evidence (not a verdict: the -race runs then say nothing about that goroutine).
+	sites, unknown := c13GoSites(envOr("VERIF_REPO", "/repo"))
+	run.Extra["interpreter_goroutine_sites"] = sites
+	for _, u := range unknown {
+		child.notes = append(child.notes, "the tree under test starts a goroutine at "+u+", which no C13 scenario exercises under the race detector (extend harness/c13_helper.go)")
+	}
 	run.Extra["race_detector"] = child.raceMode
 	run.Extra["race_reports"] = len(child.races)
 	run.Extra["concurrent_stats"] = child.stats
@@ -936,7 +1021,7 @@ func runC13(run *Run) {
 	if child.raceMode != "race" {
 		fmt.Println("note: C13 concurrent runs executed WITHOUT the race detector (" + child.raceMode + ")")
 	}
-	run.ValTraces += child.stats["iso_states"] + child.stats["chan_scenarios"]
+	run.ValTraces += child.stats["iso_states"] + child.stats["chan_scenarios"] + child.stats["helper_states"]
 	c13Judge(run, 5000000, child.lines)
 	if len(child.lines) > 0 {
 		run.Sample(map[string]interface{}{"concurrent_requests": headLines(child.lines, 4)})
